@@ -228,7 +228,7 @@ reg("C01", fast=True, fast_only=("sine",), coqchk_norec=True,
                   "Classical_Prop.classic, FunctionalExtensionality.functional_extensionality_dep as Print Assumptions reports them, and the Interval tactic (bounds on PI, 2^-80) which computes with the kernel's primitive integers and floats "
                   "(PrimInt63.*, PrimFloat.*, Uint63 specification axioms of the standard library)",
                   "thorough tier: coqchk re-checks every module of this development with -norec and admits the installed libraries (standard library reals, Interval, Coquelicot, Flocq) as they are - re-checking those takes over 40 minutes"],
-    level_text="attack_loop_constant_on_schedule / attack_loop_linear_on_schedule / attack_loop_sine_on_schedule_partial carry the closed-loop bound from the idealised loop to every reachable state of the attack LTS (the loop of lib/attack.go with workers, channels, Stop calls, late wake-ups; tie: real ConstantPacer attacks in virtual time in C04's run). Constant pacer, in full: closed_loop_upper (generic, all pacers/stall histories/lengths), const_no_panic, const_neg_stops, const_zero_unlimited, const_overflow_stops, const_contract, const_positive_wait, const_lower proved over Z with the uint64/int64 wrap-arounds written out; bit-exact tie. "
+    level_text="attack_loop_constant_on_schedule / attack_constant_total_hits (at most Freq*du/Per + 1 hits in an attack of duration du) / attack_loop_linear_on_schedule / attack_loop_sine_on_schedule_partial carry the closed-loop bound from the idealised loop to every reachable state of the attack LTS (the loop of lib/attack.go with workers, channels, Stop calls, late wake-ups; tie: real ConstantPacer attacks in virtual time in C04's run). Constant pacer, in full: closed_loop_upper (generic, all pacers/stall histories/lengths), const_no_panic, const_neg_stops, const_zero_unlimited, const_overflow_stops, const_contract, const_positive_wait, const_lower proved over Z with the uint64/int64 wrap-arounds written out; bit-exact tie. "
                "Linear pacer: linear_contract_pos, linear_closed_loop_upper (non-negative slope, every stall history, calls at rates <= 5*10^8/s), linear_schedule_mono, linear_positive_wait, linear_neg_stops, linear_zero_unlimited proved over exact rationals; linear_neg_refuted (negative slope: known finding); tie inside a guard band. "
                "Sine pacer, PARTIAL: sine_schedule_enclosed / sine_rate_enclosed (the checker's Q-interval evaluator - Taylor sums + angle doubling + outward rounding - encloses the real schedule and rate), sine_schedule_mono, and sine_closed_loop_upper_partial (count within one hit for every history whose calls keep the per-call contract) proved over R; "
                "that the float64 inversion in Pace keeps the contract is not proved: it is decided call by call on the real pacer with the verified enclosures.",
@@ -339,9 +339,10 @@ reg("C04", runner="sync", rule=_ATTACK_RULE, diffs=_ATTACK_DIFF,
     clauses={401: "pacer consulted with wrong hits/elapsed arguments", 402: "more hits started than the pacer had released by then (a hit started before its wait was over)",
              403: "pacer consulted after the duration had elapsed", 404: "more than one hit released after the deadline", 405: "a hit was released (or the pacer consulted) after the pacer said stop",
              406: "real ConstantPacer: more hits had started by some instant than the schedule Freq*t/Per allows",
-             407: "real ConstantPacer attack did not end, or results and started hits differ in number"},
+             407: "real ConstantPacer attack did not end, or results and started hits differ in number",
+             408: "real ConstantPacer attack of duration du released more than Freq*du/Per + 1 hits"},
     assumptions=_ATTACK_ASSUME + ["the scripted pacer also answers 'wait forever' (math.MaxInt64) once time has passed: no hit may start, and the attack must still end once (virtual) forever is over",
-                                  "40 (thorough 1500) attacks with the real ConstantPacer (1 .. 2^20 hits per 7 us .. 1 min, 20..220 hits, 1..8 workers, answers taking up to 3*max-workers intervals) run in virtual time; the instant every hit reaches the transport is judged against the schedule (attack_loop_constant_on_schedule: at most Freq*t/Per hits have started by t) and the duration"],
+                                  "40 (thorough 1500) attacks with the real ConstantPacer (1 .. 2^20 hits per 7 us .. 1 min, 20..220 hits, 1..8 workers, answers taking up to 3*max-workers intervals) run in virtual time; the instant every hit reaches the transport is judged against the schedule (attack_loop_constant_on_schedule: at most Freq*t/Per hits have started by t), the duration, and the total (attack_constant_total_hits: at most Freq*du/Per + 1 hits)"],
     trusted_base=_ATTACK_TB,
     level_text="pace_args_hits, pace_args_elapsed, no_early_hit, deadline, stop_means_stop, ticks_are_pacer_answers and loop_keeps_pacer_schedule (for every pacer keeping a per-call contract, every reachable state of the loop - any workers, interleaving, Stop calls, late wake-ups - is on the pacer's schedule) are proved in Coq as trace properties of every run of the attack LTS with virtual time (adversarial pacer, any durations); tie by trace acceptance of scripted real attacks under synctest with exact virtual timestamps, and real ConstantPacer attacks judged against the schedule.",
     technique="Coq inductive invariants over a timed LTS + trace acceptance under synctest",
